@@ -429,6 +429,12 @@ def _case_cli(case, ctx):
                 rc = e.code
             except Exception as e:
                 if case.get("tamper"):
+                    left = open(out, "rb").read() if os.path.exists(out) else b""
+                    probe = [payload[:16], payload[-16:]] if len(payload) >= 32 else [payload]
+                    if left and any(pr and pr in left for pr in probe):
+                        ctx.violation(case, {"subject": "envelope.cli", "kind": "unauthenticated-plaintext-left-in-output",
+                                             "region": case["tamper"]}, {"len_got": len(left), "len_payload": len(payload)})
+                        return
                     ctx.outcome("cli")
                     return
                 ctx.violation(case, {"subject": "envelope.cli", "kind": "exception", "exc": type(e).__name__},
@@ -448,6 +454,12 @@ def _case_cli(case, ctx):
             if rc in (0, None):
                 ctx.violation(case, {"subject": "envelope.cli", "kind": "tamper-accepted", "region": case["tamper"]},
                               {"rc": rc, "len_got": None if got is None else len(got), "equal_to_payload": got == payload})
+                return
+            # "returning no plaintext": what the refused run leaves in the output file holds nothing of the payload
+            probe = [payload[:16], payload[-16:]] if len(payload) >= 32 else [payload]
+            if got and any(pr and pr in got for pr in probe):
+                ctx.violation(case, {"subject": "envelope.cli", "kind": "unauthenticated-plaintext-left-in-output", "region": case["tamper"]},
+                              {"rc": rc, "len_got": len(got), "len_payload": len(payload)})
                 return
             ctx.outcome("cli")
             return
